@@ -45,8 +45,9 @@ Definition corr_okb (h : helper) (u : method) (self_ns : pv) (c : call pv) (o : 
      8   namespace is not `caller's if truthy else the registration namespace`
      16  an explicitly given argument did not reach the same-named parameter unchanged
      32  the helper raised, or the object received no call / several calls
-     64  another method was called, or a parameter the helper does not expose was altered
-     128 a parameter was bound twice *)
+     64  a parameter of the underlying method that the helper does not expose was altered
+     128 a parameter was bound twice
+     256 another method than the same-named one was called *)
 Definition prop_code (h : helper) (u : method) (self_ns : pv) (c : call pv) (o : obs) : nat :=
   match bind_call pid (h_sig h) c with
   | Err _ => 0                      (* the caller's own call is invalid: outside the claim *)
@@ -56,9 +57,9 @@ Definition prop_code (h : helper) (u : method) (self_ns : pv) (c : call pv) (o :
                    (if ret then 0 else 4) +
                    (if post_nsb (m_sig u) self_ns env bound then 0 else 8) +
                    (if post_sharedb (h_sig h) (m_sig u) c bound then 0 else 16) +
-                   (if str_eqb m (h_name h) && str_eqb m (m_name u) &&
-                       post_unexposedb (h_sig h) (m_sig u) bound then 0 else 64) +
-                   (if post_nodupb bound then 0 else 128)
+                   (if post_unexposedb (h_sig h) (m_sig u) bound then 0 else 64) +
+                   (if post_nodupb bound then 0 else 128) +
+                   (if str_eqb m (h_name h) && str_eqb m (m_name u) then 0 else 256)
                | ObsRaise _ => 32
                | ObsOther _ => 32
                end in
@@ -83,10 +84,10 @@ Proof.
   destruct ret; [|simpl; discriminate].
   destruct (post_nsb (m_sig u) self_ns env bound) eqn:E1; [|simpl; discriminate].
   destruct (post_sharedb (h_sig h) (m_sig u) c bound) eqn:E2; [|simpl; discriminate].
-  destruct (str_eqb m (h_name h) && str_eqb m (m_name u) &&
-            post_unexposedb (h_sig h) (m_sig u) bound) eqn:E3; [|simpl; discriminate].
+  destruct (post_unexposedb (h_sig h) (m_sig u) bound) eqn:E5; [|simpl; discriminate].
   destruct (post_nodupb bound) eqn:E4; [|simpl; discriminate].
-  intros _. apply andb_true_iff in E3 as [E3 E5]. apply andb_true_iff in E3 as [_ E3].
+  destruct (str_eqb m (h_name h) && str_eqb m (m_name u)) eqn:E3; [|simpl; discriminate].
+  intros _. apply andb_true_iff in E3 as [_ E3].
   apply str_eqb_eq in E3.
   split; [reflexivity|split; [exact E3|]].
   apply post_okb_sound. unfold post_okb. rewrite E1, E2, E4, E5. reflexivity.
